@@ -170,6 +170,37 @@ func TestVerifC15Random(t *testing.T) {
 		if msg := checkPair(x, p); msg != "" {
 			t.Fatalf("%s", msg)
 		}
+		// Mixed families: an IPv4 prefix and an IPv6 prefix live in different address spaces. Neither contains
+		// nor equals the other, whatever their bits are (bio-rd evaluates one policy chain and one set of prefix
+		// matchers for both families of a neighbor, so callers do pass mixed pairs), and an IPv4 address is never
+		// the same as an IPv6 address with the same numeric value.
+		if rapid.IntRange(0, 4).Draw(t, "mixed") == 0 {
+			ow := 160 - w
+			q := kit.GenPrefix(t, ow, "q")
+			if rapid.Bool().Draw(t, "mixed_samebits") {
+				// same leading/low bits as p: the hardest case for word-wise comparisons
+				q = kit.Bits{W: ow, L: rapid.IntRange(0, ow).Draw(t, "q_len")}
+				if ow == 128 {
+					copy(q.A[12:], p.A[:4])
+				} else {
+					copy(q.A[:4], p.A[12:16])
+				}
+				q = q.Canon()
+			}
+			c.Logf("mixed p=%v q=%v", p, q)
+			c.Class("mixed_family")
+			bp, bq := toPfx(p), toPfx(q)
+			if bp.Contains(bq) || bq.Contains(bp) {
+				t.Fatalf("Contains across address families: %v / %v (Contains(p,q)=%v Contains(q,p)=%v)", p, q, bp.Contains(bq), bq.Contains(bp))
+			}
+			if bp.Equal(bq) || bq.Equal(bp) {
+				t.Fatalf("Equal across address families: %v / %v", p, q)
+			}
+			ip, iq := toIP(p), toIP(q)
+			if ip.Equal(iq) || ip.Compare(&iq) == 0 || iq.Compare(&ip) == 0 || ip.Compare(&iq) != -iq.Compare(&ip) {
+				t.Fatalf("addresses of different families compare equal or inconsistently: %v / %v (Compare %d / %d)", p, q, ip.Compare(&iq), iq.Compare(&ip))
+			}
+		}
 		a := kit.GenAddr(t, w, "a")
 		b := a
 		if rapid.Bool().Draw(t, "flipb") {
